@@ -1,10 +1,10 @@
 package props
 
 import (
-	"sort"
 	"bytes"
 	"fmt"
 	"path"
+	"sort"
 
 	"github.com/akalin/gopar/par1"
 
@@ -24,16 +24,16 @@ type c10Case struct {
 	Names   []string `json:"names,omitempty"`
 	Volumes int      `json:"volumes,omitempty"`
 	// read direction
-	Status   []int `json:"status,omitempty"`  // per entry status bits (bit0 saved, bit1 checked)
-	Comment  int   `json:"comment,omitempty"` // 0 none, 1 ASCII, 2 binary, 3 1 KiB
-	NameSet  int   `json:"nameset,omitempty"`
-	Missing  []int `json:"missing,omitempty"` // entry indices (saved) whose file is missing; negative: corrupted
-	VolGone  []int `json:"volgone,omitempty"` // volumes (1-based) absent
-	BadVol   int   `json:"badvol,omitempty"`  // volume (1-based) whose parity data is wrong but whose hashes are valid (0 none)
-	Filler   int   `json:"filler,omitempty"`  // this many additional NON-saved entries (files not in the parity set) are listed after the others
-	DC       bool  `json:"dc,omitempty"`
-	Dec      *decProtoCase `json:"dec,omitempty"` // Dir "decproto": operation sequences on one exported Decoder object over a reference-written set
-	Enc      *encProtoCase `json:"enc,omitempty"` // Dir "encproto": operation sequences on one exported Encoder object
+	Status  []int         `json:"status,omitempty"`  // per entry status bits (bit0 saved, bit1 checked)
+	Comment int           `json:"comment,omitempty"` // 0 none, 1 ASCII, 2 binary, 3 1 KiB
+	NameSet int           `json:"nameset,omitempty"`
+	Missing []int         `json:"missing,omitempty"` // entry indices (saved) whose file is missing; negative: corrupted
+	VolGone []int         `json:"volgone,omitempty"` // volumes (1-based) absent
+	BadVol  int           `json:"badvol,omitempty"`  // volume (1-based) whose parity data is wrong but whose hashes are valid (0 none)
+	Filler  int           `json:"filler,omitempty"`  // this many additional NON-saved entries (files not in the parity set) are listed after the others
+	DC      bool          `json:"dc,omitempty"`
+	Dec     *decProtoCase `json:"dec,omitempty"` // Dir "decproto": operation sequences on one exported Decoder object over a reference-written set
+	Enc     *encProtoCase `json:"enc,omitempty"` // Dir "encproto": operation sequences on one exported Encoder object
 }
 
 var c10NameSets = [][]string{
